@@ -2,6 +2,7 @@
 # usage: tools/reseed_all.sh [parallelism]   - re-runs the quick tier of every stored seeded change's
 # property check against a scratch copy of /repo with the change applied (tools/mutant.sh) and lists
 # the outcome per change in /tmp/reseed/results.txt: caught / MISSED / patch-failed / inconclusive.
+# RESEED_ONLY=<regexp on the change name, e.g. '[jk]$'> restricts the run.
 par=${1:-3}
 mkdir -p /tmp/reseed; : > /tmp/reseed/results.txt
 cd /verif
@@ -10,6 +11,7 @@ run_id() {
   id=$1
   for d in seeded/$id-*/; do d=${d%/}
     n=$(basename $d)
+    if [ -n "$RESEED_ONLY" ] && ! echo "$n" | grep -Eq "$RESEED_ONLY"; then continue; fi
     out=$(tools/mutant.sh $id quick /verif/$d/patch.diff 2>&1)
     rc=$?
     case $rc in
